@@ -4,6 +4,7 @@ import OtterVerif.Impl.Wheel
 import OtterVerif.Impl.Mpsc
 import OtterVerif.Impl.Policy
 import OtterVerif.Impl.Ring
+import OtterVerif.Lin.Check
 
 namespace Driver.Units
 open OtterVerif
@@ -349,6 +350,96 @@ def crStep (st : CrSt) (line : String) (t : Tally) : Except String (CrSt × Tall
         | none => .ok (st, t)
   | _ => .error "unknown line"
 
+/-! ### conc-lin: linearizability of recorded histories (C02 cache, C15 table) -/
+
+structure LnSt where
+  ops : List (Nat × Lin.Op) := []
+
+def lnStep (st : LnSt) (line : String) (t : Tally) : Except String (LnSt × Tally) :=
+  let ws := splitWs line
+  match ws with
+  | "cfg" :: _ => .ok ({ ops := [] }, t.bump "histories")
+  | "stats" :: rest =>
+    if natOf rest "hits" + natOf rest "misses" != natOf rest "lookups" then
+      .error s!"C20: hits ({natOf rest "hits"}) + misses ({natOf rest "misses"}) ≠ {natOf rest "lookups"} counted lookups performed by the concurrent history"
+    else .ok (st, t.bump "stats_tallies")
+  | "tablesize" :: rest =>
+    if natOf rest "size" != natOf rest "ranged" then .error s!"C15: at quiescence Size() = {natOf rest "size"} but iteration yields {natOf rest "ranged"} keys"
+    else if natOf rest "dups" != 0 then .error s!"C15: iteration yielded {natOf rest "dups"} keys more than once"
+    else .ok (st, t)
+  | ["h", k, tag, call, ret, seen, wrote, cb, lin] =>
+    if cb != "cb=1" then .error s!"C02/C15: the compute callback of {tag} on key {k} ran {cb} times for one call" else
+    let seenO := seen.toNat?
+    let wroteO : Option (Option Nat) := if wrote == "-" then none else if wrote == "del" then some none else some (wrote.toNat?)
+    let op : Lin.Op := { call := call.toNat!, ret := ret.toNat!, seen := seenO, wrote := wroteO, lin := natOf [lin] "lin", tag := s!"{tag}@{call}" }
+    .ok ({ ops := (k.toNat!, op) :: st.ops }, (t.bump "operations").bump (if tag == "evict" then "evictions_in_history" else s!"op_{tag}"))
+  | ["end"] =>
+    let keys := (st.ops.map (·.1)).eraseDups
+    let rec chk (ks : List Nat) : Except String Unit :=
+      match ks with
+      | [] => .ok ()
+      | k :: rest =>
+        match Lin.checkKey ((st.ops.filter (·.1 == k)).map (·.2)) with
+        | .ok () => chk rest
+        | .error e => .error s!"history of key {k} is not linearizable: {e}"
+    match chk keys with
+    | .ok () => .ok ({ ops := [] }, t.bump "keys_checked" keys.length)
+    | .error e => .error e
+  | _ => .error "unknown line"
+
+/-! ### conc-flight: single-flight judge (C08) -/
+
+structure CfSt where
+  outcome : String := ""
+  base : Nat := 0
+  loads : List (Nat × Nat × Nat) := []        -- key, enter, exit
+  deriving Inhabited
+
+def cfStep (st : CfSt) (line : String) (t : Tally) : Except String (CfSt × Tally) :=
+  let ws := splitWs line
+  match ws with
+  | "round" :: _ :: rest =>
+    .ok ({ outcome := (kvOf rest "outcome").getD "", base := natOf rest "base", loads := [] }, t.bump s!"rounds_{(kvOf rest "outcome").getD ""}")
+  | ["load", k, enter, exit, _] =>
+    let k := k.toNat!; let en := enter.toNat!; let ex := exit.toNat!
+    -- loader executions for one key must not overlap in time (no write, invalidation or eviction happens in these runs)
+    match st.loads.find? (fun (k', en', ex') => k' == k && en < ex' && en' < ex && (en', ex') != (en, ex)) with
+    | some (_, en', ex') => .error s!"C08: two loader executions for key {k} overlap in time: [{en'}, {ex'}] and [{en}, {ex}]"
+    | none =>
+      let t := t.bump "loader_invocations"
+      -- a successful load is cached: one execution serves every caller of the round
+      if st.outcome == "ok" && st.loads.any (fun (k', en', _) => k' == k && en' != en) then
+        .error s!"C08: key {k} was loaded more than once although the first load succeeded and nothing removed the entry"
+      else .ok ({ st with loads := (k, en, ex) :: st.loads }, t)
+  | "call" :: _w :: start :: end_ :: res :: err :: [] =>
+    let t := t.bump "callers"
+    -- the caller returns the outcome of the round's loader
+    let wantErr := match st.outcome with | "ok" => "nil" | "err" => "err" | "nf" => "nf" | _ => "panic"
+    let parts := res.splitOn ","
+    let kind := parts.headD ""
+    let kvs := (parts.drop 1).filterMap (fun p => match p.splitOn "=" with | [a, b] => some (a.toNat!, b.toNat!) | _ => none)
+    let _ := (start, end_)
+    if st.outcome == "pan" then
+      if res == "panic" || err == "panic" || err == "other" || err == "nil" then .ok (st, t) else .error s!"C08: caller got {res} {err} from a panicking loader"
+    else if st.outcome == "ok" then
+      if err != "nil" then .error s!"C08: caller got error {err} although the load succeeded"
+      else match kvs.find? (fun (k, v) => v != st.base + k) with
+        | some (k, v) => .error s!"C08/C10: caller received {v} for key {k}, the loader returned {st.base + k}"
+        | none => .ok (st, t)
+    else if kind == "get" then
+      if err != wantErr then .error s!"C08: Get returned error class {err}, the loader's outcome was {st.outcome}" else .ok (st, t)
+    else
+      -- BulkGet: a failing bulk load yields its error; not-found keys are simply absent from the result
+      if st.outcome == "err" && err != "err" then .error s!"C08: BulkGet returned {err}, the bulk loader failed"
+      else if st.outcome == "nf" && (err != "nil" || !kvs.isEmpty) then .error s!"C08/C10: BulkGet returned {res} {err} although the loader supplied no key"
+      else .ok (st, t)
+  | "call" :: _ => .ok (st, t.bump "callers")
+  | "quiescent" :: rest =>
+    if natOf rest "hangs" != 0 then .error "C08: a caller never returned: it waits for an in-flight load that nobody completes"
+    else if natOf rest "inflight" != 0 then .error s!"C08: {natOf rest "inflight"} in-flight record(s) left behind after every call returned"
+    else .ok (st, t.bump "quiescent_points")
+  | _ => .error "unknown line"
+
 /-- generic script loop: `step` per line, first failure of a script is reported, rest of the script skipped -/
 partial def loop {σ : Type} (h : IO.FS.Stream) (init : σ) (step : σ → String → Tally → Except String (σ × Tally))
     (st : σ) (script : String) (lineNo : Nat) (skipping : Bool) (t : Tally) : IO Unit := do
@@ -373,6 +464,8 @@ def dispatch (cmd : String) (_args : List String) (h : IO.FS.Stream) : IO UInt32
   | "sketch" => loop h ({} : SkSt) skStep {} "" 0 false {}; return 0
   | "ring" => loop h ({} : Impl.Ring.Ring) rgStep {} "" 0 false {}; return 0
   | "concring" => loop h ({} : CrSt) crStep {} "" 0 false {}; return 0
+  | "concflight" => loop h ({} : CfSt) cfStep {} "" 0 false {}; return 0
+  | "conclin" => loop h ({} : LnSt) lnStep {} "" 0 false {}; return 0
   | "concpolicy" => loop h () cpStep () "" 0 false {}; return 0
   | "concmpsc" => loop h ({} : CmSt) cmStep {} "" 0 false {}; return 0
   | "concdrain" => loop h () cdStep () "" 0 false {}; return 0
